@@ -28,7 +28,7 @@ import (
 func init() {
 	register(&Prop{
 		ID: "C10", Level: "fault_enumeration",
-		Rule:        "enumerated fault plans: content length L (grid around 2048/32768/65536 and 100000-150000) x API (Set, SetReader, Create+Write+Close) x client (inline, gRPC) x fault: source reader fails at offset p in {0,1,2047,2048,2049,L/2,L-1} (error alone and (n>0,err)); gRPC: caller's context cancelled after p bytes were consumed, TCP connection cut by a harness-side proxy after p request bytes; no-space at the k-th write of a content file, full (0 bytes) or partial (j bytes really written, then ENOSPC), on 1-3 roots whose reported free space is supplied through the disk-usage hook in the patterns {faulty root has least free, faulty root has most free, all roots faulty, two faulty + one healthy with most free}; the same on a real 100 KiB tmpfs root (real ENOSPC, real partial writes) when mounting is permitted. Role grpccut repeats the cuts that hit a stream while it is being set up (first request byte, first few hundred bytes, or all connections closed from another goroutine within microseconds of the call) and the cancellations that race with the completion of the upload (context cancelled when the source is exhausted, or up to 2048 bytes earlier), hundreds of times per case: a stream the server has not seen is re-created and replayed by gRPC, so a client that completes it after a failed send stores a truncated value. Role opfault injects one failure of mkdir / file creation (first write into fresh storage, the write that replaces a full directory, an ordinary write): usual oracle, and the writes that follow without a fault must succeed. A concurrent reader polls Get(key) during the faulty write. Oracle: error => an independent client reads the previous value (or ErrNotFound) during and after, class ErrNoFreeSpace where the statement says so; success => reads exactly the source bytes; with a healthy root reporting more free space than every faulty one the write must succeed. evaluations = plans executed; distinct_nontrivial = distinct (client, API, fault kind, offset class, root pattern, outcome) tuples",
+		Rule:        "enumerated fault plans: content length L (grid around 2048/32768/65536 and 100000-150000) x API (Set, SetReader, Create+Write+Close) x client (inline, gRPC) x fault: source reader fails at offset p in {0,1,2047,2048,2049,L/2,L-1} (error alone and (n>0,err)); gRPC (and, for the cancellation, the inline client too): caller's context cancelled after p bytes were consumed; gRPC: TCP connection cut by a harness-side proxy after p request bytes; no-space at the k-th write of a content file, full (0 bytes) or partial (j bytes really written, then ENOSPC), on 1-3 roots whose reported free space is supplied through the disk-usage hook in the patterns {faulty root has least free, faulty root has most free, all roots faulty, two faulty + one healthy with most free}; the same on a real 100 KiB tmpfs root (real ENOSPC, real partial writes) when mounting is permitted. Role grpccut repeats the cuts that hit a stream while it is being set up (first request byte, first few hundred bytes, or all connections closed from another goroutine within microseconds of the call) and the cancellations that race with the completion of the upload (context cancelled when the source is exhausted, or up to 2048 bytes earlier), hundreds of times per case: a stream the server has not seen is re-created and replayed by gRPC, so a client that completes it after a failed send stores a truncated value. Role opfault injects one failure of mkdir / file creation (first write into fresh storage, the write that replaces a full directory, an ordinary write): usual oracle, and the writes that follow without a fault must succeed. A concurrent reader polls Get(key) during the faulty write. Oracle: error => an independent client reads the previous value (or ErrNotFound) during and after, class ErrNoFreeSpace where the statement says so; success => reads exactly the source bytes; with a healthy root reporting more free space than every faulty one the write must succeed. evaluations = plans executed; distinct_nontrivial = distinct (client, API, fault kind, offset class, root pattern, outcome) tuples",
 		Assumptions: []string{"hook-injected ENOSPC models real ENOSPC (cross-checked on a real tmpfs root when mounting is permitted)"},
 		Roles: map[string]Role{
 			"reader":  {N: func(t string) int { return tierN(t, 12, 64) }, Case: c10Reader},
@@ -507,13 +507,22 @@ func b2i(b bool) int64 {
 
 func c10Grpc(tier string, seed int64, idx int, scratch string) rt.CaseResult {
 	var c rt.CaseResult
-	env, err := dbx.Open(dbx.Options{Mode: dbx.Grpc, Dir: filepath.Join(scratch, "db"), Proxy: true})
+	// every fourth case runs the cancellation plans on the inline client (no connection to cut)
+	inlineMode := idx%4 == 3
+	eo := dbx.Options{Mode: dbx.Grpc, Dir: filepath.Join(scratch, "db"), Proxy: true}
+	if inlineMode {
+		eo = dbx.Options{Mode: dbx.Inline, Dir: filepath.Join(scratch, "db")}
+	}
+	env, err := dbx.Open(eo)
 	if err != nil {
 		c.Violate("open-failed", err.Error(), nil)
 		return c
 	}
 	defer env.Close()
 	x := &c10Ctx{c: &c, env: env, verify: env.Direct, seed: seed}
+	if inlineMode {
+		x.verify = env.DB
+	}
 	rng := seqrun.Rng(seed, "C10g", idx)
 	n := 0
 	for _, l := range []int{2049, 40000, 150000, 400000} {
@@ -537,6 +546,9 @@ func c10Grpc(tier string, seed int64, idx int, scratch string) rt.CaseResult {
 					}
 					if fault == "ctx-cancel" && api == "set" {
 						continue // Set has no hook to cancel mid-way: covered by setreader
+					}
+					if inlineMode && fault == "tcp-cut" {
+						continue
 					}
 					rt.Beat()
 					n++
@@ -572,13 +584,13 @@ func c10Grpc(tier string, seed int64, idx int, scratch string) rt.CaseResult {
 					if fault == "tcp-cut" {
 						fired = env.CutFired()
 					}
-					plan := map[string]any{"mode": "grpc", "api": api, "fault": fault, "len": l, "offset": off, "had_previous": hadPrev, "cut_fired": fired, "seed": seed}
+					plan := map[string]any{"mode": modeName(env.Opt.Mode), "api": api, "fault": fault, "len": l, "offset": off, "had_previous": hadPrev, "cut_fired": fired, "seed": seed}
 					c.Evals++
 					// an error must leave no trace; success must be complete (a cut late in the stream may let the write finish)
 					if !x.judge(plan, key, werr, src, prev, hadPrev, nil, "", bad) {
 						return c
 					}
-					c.AddDistinct(fmt.Sprintf("grpc/%s/%s/off=%s/prev=%v/ok=%v", api, fault, offsetClass(off, l), hadPrev, werr == nil))
+					c.AddDistinct(fmt.Sprintf("%s/%s/%s/off=%s/prev=%v/ok=%v", modeName(env.Opt.Mode), api, fault, offsetClass(off, l), hadPrev, werr == nil))
 					c.Count("faulty_uploads_that_failed", b2i(werr != nil))
 				}
 			}
